@@ -123,7 +123,7 @@ DECODER_REQS = [
 
 
 # the verifier itself refuses what the octet decoders refuse, however the key and the signature objects were built (pub fields, serde)
-ZERO_ALTS = [{'gate_callee': ['is_zero']}, {'gate_callee': ['PartialEq'], 'const': ['ZERO']}]
+ZERO_ALTS = [{'gate_callee': ['is_zero']}, {'gate_callee': ['PartialEq'], 'const': ['ZERO']}, {'gate_callee': ['<impl [T]>::contains'], 'const': ['ZERO'], 'truth': False}]
 def _proof_scalar_reqs():
     out = []
     for f in ('e_cap', 'r1_cap', 'r3_cap', 'challenge'):
